@@ -478,6 +478,19 @@ class Gmx2Kit:
             side = rng.choice(["long", "short", "both"])
             la = amount_of(rng, bal(broker, m.long_token), cls, m.long_token.decimal) if side != "short" else Decimal(0)
             sa = amount_of(rng, bal(broker, m.short_token), rng.choice(ARG_CLASSES), m.short_token.decimal) if side != "long" else Decimal(0)
+            if cls == "dust" and rng.random() < 0.6:
+                # worth about one unit in the last place of the pool's USD figures: the float evaluation of the price impact
+                # of such a deposit is rounding noise of that size, of either sign
+                import math
+
+                d = m.market_status.data
+                big = max(float(d.longAmount) * float(d.longPrice), float(d.shortAmount) * float(d.shortPrice),
+                          float(getattr(d, "virtualSwapInventoryLong", 0) or 0) * float(d.longPrice),
+                          float(getattr(d, "virtualSwapInventoryShort", 0) or 0) * float(d.shortPrice))
+                usd = math.ulp(big) * 10 ** rng.uniform(-0.5, 1.6)
+                la = Decimal(repr(usd / float(d.longPrice))) if side != "short" else Decimal(0)
+                sa = Decimal(repr(usd / float(d.shortPrice))) if side != "long" else Decimal(0)
+                cls = "pool-ulp"
             return Op(self.mtype, "deposit", f"{cls}/{side}", lambda: m.deposit(la, sa), kind="trade")
         if cls == "exact" and rng.random() < 0.5:
             return Op(self.mtype, "withdraw", "none", lambda: m.withdraw(None), kind="trade")
